@@ -5,3 +5,5 @@ import LettreVerif.Props.C05
 #print axioms LV.C05.error_carries_code_and_text
 #print axioms LV.C05.send_raw_hands_over_at_most_once
 #print axioms LV.C05.successful_send_raw_hands_over_once
+#print axioms LV.C05.starttls_refusal_reported
+#print axioms LV.C05.auth_refusal_reported
